@@ -219,6 +219,30 @@ def gen_universe(rng):
             uni[b2][v] = [[d, b"", [[K_EXTRAS, b"e2"]]]]
         for v in vers[d]:
             uni[d][v] = [[e, b"", [[K_ENV, b'extra == "e1"']]], [f, b"", [[K_ENV, b'extra == "e2"']]]]
+    if rng.random() < 0.04 and npk >= 7:
+        # F-C08-3: x requests z[e2] and is then cut off because w is re-pinned; needs x < y < z by name
+        cand_w = [n for n in names if len([v for v in vers[n] if vkey(v)[1] == 3]) >= 2]
+        if cand_w:
+            w = rng.choice(cand_w)
+            rest = [n for n in names if n != w]
+            picked = rng.sample(rest, 6)
+            x, y, z = sorted(picked[:3])
+            top, k, m = picked[3:]
+            whi = sorted([v for v in vers[w] if vkey(v)[1] == 3], key=vkey)[-1]
+            for v in vers[top]:
+                uni[top][v] = [[w, b"", []], [k, b"", []]]
+            for v in vers[w]:
+                uni[w][v] = [[x, b"", []], [y, b"", []]] if v == whi else [[y, b"", []]]
+            for v in vers[x]:
+                uni[x][v] = [[z, b"", [[K_EXTRAS, b"e2"]]]]
+            for v in vers[y]:
+                uni[y][v] = [[w, b"<" + whi, []]]
+            for v in vers[k]:
+                uni[k][v] = [[z, b"", []]]
+            for v in vers[z]:
+                uni[z][v] = [[m, b"", [[K_ENV, b'extra == "e2"']]]]
+            for v in vers[m]:
+                uni[m][v] = []
     return names, vers, uni
 
 
@@ -273,7 +297,7 @@ class Oracle:
         self.marker = {}
         for raw, ex, ok, val in oracles[0]:
             self.marker[(raw, tuple(ex))] = (ok, val)
-        self.cons = {r: (ok, pre) for r, ok, pre in oracles[1]}
+        self.all_extras = sorted(set(e for _, ex, _, _ in oracles[0] for e in ex))
         self.mv = {}
         for pkg, rq, ok, mv, withpre in direct:
             self.mv[(pkg, rq)] = (ok, mv, withpre)
@@ -364,14 +388,21 @@ class Oracle:
 
 
 def classify(hit, orc):
-    """open known finding an oracle hit is an instance of (None: not a known class)"""
+    """open known finding an oracle hit is an instance of (None: not a known class).  The classes are
+    structural; a hit is counted as known only if the model (the proved copy of the pinned behaviour)
+    shows the same hit on the same input."""
     clause, d = hit
-    if clause != "edge_missing":
+    if clause == "edge_missing":
+        nv, tgt, rq, ty, extras = d
+        if extras and orc.marker_val(ty, []) is False:
+            return "F-C08-2"     # true only through extras: the requirement was decided before the extra was requested
+        return "F-C08-1"         # the required package is pinned but hasRouteToRoot left it out
+    if clause == "false_marker_edge":
+        nv, tgt, rq, ty, extras = d
+        if orc.marker_val(ty, orc.all_extras) is True:
+            return "F-C08-3"     # true for extras that no version in the graph requests (requested by an abandoned version)
         return None
-    nv, tgt, rq, ty, extras = d
-    if extras and orc.marker_val(ty, []) is False:
-        return "F-C08-2"     # true only through extras: the requirement was decided before the extra was requested
-    return "F-C08-1"
+    return None
 
 
 def record_arg(names, vers, uni, roots):
